@@ -30,6 +30,7 @@ var registry = map[string]checkFn{
 	"C11": runC11,
 	"C12": runC12,
 	"C16": runC16,
+	"C18": runC18,
 	"C19": runC19,
 }
 
@@ -86,7 +87,12 @@ func Main(args []string) int {
 	exit := 0
 	newV := 0
 	seenKnown := map[string]bool{}
+	printed := map[string]bool{}
 	for i, v := range viols {
+		if printed[v.Sig] {
+			continue
+		}
+		printed[v.Sig] = true
 		if f := MatchFinding(findings, id, v.Sig); f != nil {
 			if !seenKnown[v.Sig] {
 				fmt.Printf("KNOWN-FINDING: property=%s %s :: %s\n", id, v.Sig, v.Detail)
